@@ -693,6 +693,7 @@ package fdo
 //@   callsites KV.Size 1
 //@   callassert KV.Size#1: @fits u(arg0) == u(chunk) && kvsize(len(arg0.Key), len(arg0.Val)) <= int(maxRead)
 //@   callassert sendDeviceServiceInfo#1: @more msg.IsMoreServiceInfo ==> maxRead != mtu
+//@   callassert sendDeviceServiceInfo#1: @nomore !msg.IsMoreServiceInfo ==> ErrIs(u(err), u(io.EOF))
 //@   callassert exchangeServiceInfoRound#1: @same arg2 == mtu && u(arg3) == u(r) && u(arg4) == u(w) && u(arg5) == u(sess)
 
 // ---- TO2 owner side, HelloDevice (C02, C09): the proof of ownership is signed only with
